@@ -19,6 +19,8 @@ def check(run):
         plans = [dict(num=50, ops=20, window=1, txs=few, maxb=8), dict(num=50, ops=20, window=2, txs=few, maxb=8)]
     else:
         plans = [dict(num=500, ops=24, window=w, txs=few, maxb=9) for w in (1, 2, 3)] + [dict(num=200, ops=20, window=0, txs=few)]
+    # chains grown well beyond the window, forked within the last window + 1 blocks, walks between the branches
+    plans += [dict(num=40 if quick else 400, ops=26, window=w, txs=few, maxb=11, cfg="Gen_XState_fin.cfg") for w in ((2, 3) if quick else (1, 2, 3, 4))]
     groups = xc.gen(run, plans)
     xc.replay_validate(run, groups)
     behs = [b for _, bs, _ in groups for b in bs]
